@@ -284,12 +284,30 @@ func (a *oauth2IntrospectionAuthenticator) getSubjectInformation(ctx heimdall.Co
 		return nil, err
 	}
 
+	// configured assertions take precedence over those available in the metadata
+	assertions := a.a.Merge(oauth2.Expectation{
+		TrustedIssuers: []string{metadata.Issuer},
+	})
+
 	if a.isCacheEnabled() {
 		cacheKey = a.calculateCacheKey(metadata.IntrospectionEndpoint, req.URL.String(), token)
 		if entry, err := cch.Get(ctx.AppContext(), cacheKey); err == nil {
-			logger.Debug().Msg("Reusing introspection response from cache")
+			var cachedResp oauth2.IntrospectionResponse
 
-			return entry, nil
+			// the cache entry may have been created by a rule specific instance of this authenticator
+			// with different assertions. So, the assertions of this instance are verified here as well
+			if err = json.Unmarshal(entry, &cachedResp); err == nil {
+				if err = cachedResp.Validate(assertions); err != nil {
+					return nil, errorchain.
+						NewWithMessage(heimdall.ErrAuthentication, "access token does not satisfy assertion conditions").
+						WithErrorContext(a).
+						CausedBy(err)
+				}
+
+				logger.Debug().Msg("Reusing introspection response from cache")
+
+				return entry, nil
+			}
 		}
 	}
 
@@ -301,11 +319,6 @@ func (a *oauth2IntrospectionAuthenticator) getSubjectInformation(ctx heimdall.Co
 	if err != nil {
 		return nil, err
 	}
-
-	// configured assertions take precedence over those available in the metadata
-	assertions := a.a.Merge(oauth2.Expectation{
-		TrustedIssuers: []string{metadata.Issuer},
-	})
 
 	if err = introspectResp.Validate(assertions); err != nil {
 		return nil, errorchain.
